@@ -338,6 +338,8 @@ seq2!(s2_h22_seek_next, [2, 2], [2, 3]);
 seq2!(s2_h22_seek_prev, [2, 2], [2, 4]);
 seq2!(s2_h22_last_prev, [2, 2], [1, 4]);
 seq2!(s2_h22_first_prev, [2, 2], [0, 4]);
+harness!(s2_h11_first_prev_next, 11, |t| { seqp::<2, 3>(t, [1, 1], Some([0, 4, 3])) });
+harness!(s2_h22_last_next_prev, 11, |t| { seqp::<2, 3>(t, [2, 2], Some([1, 3, 4])) });
 harness!(s2_h11_forward, 11, |t| { seqp::<2, 3>(t, [1, 1], Some([0, 3, 3])) });
 harness!(s2_h21_backward, 11, |t| { seqp::<2, 4>(t, [2, 1], Some([1, 4, 4, 4])) });
 harness!(s3_h111_member, 13, |t| { seqp::<3, 0>(t, [1, 1, 1], Some([])) });
@@ -516,7 +518,7 @@ harness_list!(
     s2_h21_seek_next, s2_h21_seek_prev, s2_h21_last_prev,
     s2_h12_seek_next, s2_h12_seek_prev, s2_h12_last_prev,
     s2_h22_seek_next, s2_h22_seek_prev, s2_h22_last_prev, s2_h22_first_prev,
-    s2_h11_forward, s2_h21_backward, s3_h111_member, s3_h121_seek, s3_h212_seek,
+    s2_h11_first_prev_next, s2_h22_last_next_prev, s2_h11_forward, s2_h21_backward, s3_h111_member, s3_h121_seek, s3_h212_seek,
     iter_after_drop_h11_seek_next, iter_after_drop_h21_seek_prev, iter_after_drop_h12_last_prev,
     iter_clone_after_drop,
     nested2_mh1, nested3_mh1, nested2_h11, nested2_h21,
